@@ -222,6 +222,9 @@ def _reads_ifm_one_to_one(op):
         return False
     if op.ifm_resampling_mode != resampling_mode.NONE or op.type.is_resize_op() or op.original_type.is_resize_op():
         return False
+    if op.type in (Op.Conv2DBackpropInput, Op.Conv2DBackpropInputSwitchedBias):
+        # The upscaling factor of a transpose convolution is derived from the shape of its whole IFM
+        return False
     return not any(op.attrs.get("explicit_padding", (0, 0, 0, 0)))
 
 
